@@ -581,6 +581,25 @@ impl Mode for StepMode {
                     forms
                 };
                 for form in &forms {
+                    // (a0) single-word forms with at most 12 variable bits: EVERY encoding of the form once (register numbers x
+                    //      immediate values), so that no single encoding can be treated specially unseen
+                    let allbits: usize = form.fields.values().sum();
+                    if form.words.len() == 1 && allbits <= 12 && form.ea.is_none() {
+                        let letters: Vec<char> = form.fields.keys().copied().collect();
+                        for combo in 0..(1u64 << allbits) {
+                            if !mine(ctx) {
+                                continue;
+                            }
+                            let mut fixed = BTreeMap::new();
+                            let mut x = combo;
+                            for l in &letters {
+                                let n = form.fields[l];
+                                fixed.insert(*l, x & ((1 << n) - 1));
+                                x >>= n;
+                            }
+                            emit(instance(form, &mut rng, opt, &fixed).line());
+                        }
+                    }
                     // (a) every combination of the register fields (up to 256), a few instances each
                     let regs = reg_letters(form);
                     let total: u64 = regs.iter().map(|l| 1u64 << form.fields[l]).product();
@@ -658,7 +677,43 @@ impl Mode for StepMode {
                     _ => {}
                 }
             }
-            "C07" => self.gen_all_words(ctx, &mut rng, emit),
+            "C07" => {
+                self.gen_all_words(ctx, &mut rng, emit);
+                // every valid form with well-formed operands (mapped, aligned, in-range), so that "a valid encoding of an
+                // implemented instruction is executed" is judged for each form on its own and not only where the
+                // word sweeps happen to meet a usable register file
+                let valid: Vec<Form> = self.forms.iter().filter(|f| f.valid).cloned().collect();
+                let reps = if quick { 12 } else { 200 };
+                let mut k: u64 = 0;
+                for form in &valid {
+                    for _ in 0..reps {
+                        k += 1;
+                        if ctx.mine(k) {
+                            emit(instance(form, &mut rng, PLAIN, &none).line());
+                        }
+                    }
+                    // ... and every value of its register / small immediate fields (up to 64 combinations)
+                    let small: Vec<char> = form.fields.iter().filter(|(c, n)| matches!(**c, 's' | 'd' | 'e' | 'n' | 'i' | 'c') && **n <= 4).map(|(c, _)| *c).collect();
+                    let total: u64 = small.iter().map(|l| 1u64 << form.fields[l]).product();
+                    if total > 1 && total <= 64 {
+                        for combo in 0..total {
+                            let mut fixed = BTreeMap::new();
+                            let mut x = combo;
+                            for l in &small {
+                                let n = form.fields[l];
+                                fixed.insert(*l, x & ((1 << n) - 1));
+                                x >>= n;
+                            }
+                            for _ in 0..(if quick { 2 } else { 8 }) {
+                                k += 1;
+                                if ctx.mine(k) {
+                                    emit(instance(form, &mut rng, PLAIN, &fixed).line());
+                                }
+                            }
+                        }
+                    }
+                }
+            }
             "C14" => self.gen_syscalls(ctx, &mut rng, emit),
             "C15" => self.gen_adversarial(ctx, &mut rng, emit),
             "C10" => self.gen_irq_programs(ctx, &mut rng, emit),
@@ -764,6 +819,32 @@ impl StepMode {
                 for _ in 0..n {
                     idx += 1;
                     if !ctx.mine(idx) {
+                        continue;
+                    }
+                    if rng.chance(1, 3) {
+                        // RELATED operands: the two differ in exactly one bit, by a power of two, or are complements up to one
+                        // bit (results like 0x80000000 / 0 / all-ones, carries out of one position) — register against
+                        // register and register against immediate
+                        let v = if rng.chance(1, 2) { interesting32(rng) } else { rng.u32() };
+                        let anyk = rng.below(32) as u32;
+                        let k = *rng.pick(&[31u32, 31, 30, 0, 15, 16, 7, 8, anyk]);
+                        let p = match rng.below(5) {
+                            0 => v ^ (1 << k),
+                            1 => v.wrapping_add(1 << k),
+                            2 => v.wrapping_sub(1 << k),
+                            3 => !v ^ (1 << k),
+                            _ => v.wrapping_neg(),
+                        };
+                        let mut fixed = BTreeMap::new();
+                        if form.fields.get(&'i').copied().unwrap_or(0) == 32 {
+                            fixed.insert('i', p as u64);
+                        }
+                        let mut c = instance(form, rng, PLAIN, &fixed);
+                        let swap = rng.chance(1, 2);
+                        for (j, e) in c.er.iter_mut().enumerate() {
+                            *e = if (j % 2 == 0) != swap { v } else { p };
+                        }
+                        emit(c.line());
                         continue;
                     }
                     let mut c = instance(form, rng, PLAIN, &BTreeMap::new());
